@@ -447,3 +447,192 @@ pub fn head_offsets(b: &[u8]) -> Vec<usize> {
     }
     out
 }
+
+// ---------------------------------------------------------------------------------------------
+// Exhaustive enumeration of small item trees.
+
+fn leaf_reps() -> Vec<Item> {
+    vec![
+        Item::uint(0), Item::uint(23), Item::uint(24), Item::uint(255), Item::uint(256), Item::uint(65536), Item::uint(1 << 32), Item::uint(u64::MAX),
+        Item::nint(0), Item::nint(23), Item::nint(24), Item::nint(127), Item::nint(128), Item::nint(255), Item::nint(32768), Item::nint(u64::MAX),
+        Item::bytes(b""), Item::bytes(b"\x01"), Item::text(""), Item::text("a"), Item::text("é"),
+        Item::BytesIndef(vec![]), Item::BytesIndef(vec![(b"\x01".to_vec(), W::Imm)]), Item::BytesIndef(vec![(vec![], W::Imm), (b"\x02\x03".to_vec(), W::Imm)]),
+        Item::TextIndef(vec![]), Item::TextIndef(vec![("a".to_string(), W::Imm), ("é".to_string(), W::Imm)]),
+        Item::False, Item::True, Item::Null, Item::Undefined, Item::Simple(0), Item::Simple(19), Item::Simple(32), Item::Simple(255),
+        Item::F16(0x3c00), Item::F16(0x7e00), Item::F32(0x3fc0_0000), Item::F64(0x3ff8_0000_0000_0000),
+    ]
+}
+
+/// All item trees with at most `k` nodes over the leaf representatives, arrays, maps (definite and
+/// indefinite) and tags, in preferred head widths. `k <= 4` is practical.
+pub fn small_shapes(k: usize) -> Vec<Item> {
+    // by_size[n] = all trees with exactly n nodes
+    let mut by_size: Vec<Vec<Item>> = vec![vec![]; k + 1];
+    if k == 0 { return vec![] }
+    let mut one = leaf_reps();
+    one.push(Item::Array(vec![], Some(W::Imm)));
+    one.push(Item::Array(vec![], None));
+    one.push(Item::Map(vec![], Some(W::Imm)));
+    one.push(Item::Map(vec![], None));
+    by_size[1] = one;
+    // sequences of trees with total node count n: all_seqs(n) -> Vec<Vec<Item>>
+    fn seqs(by_size: &[Vec<Item>], n: usize, max_len: usize) -> Vec<Vec<Item>> {
+        if n == 0 { return vec![vec![]] }
+        if max_len == 0 { return vec![] }
+        let mut out = Vec::new();
+        for first in 1 ..= n {
+            for head in &by_size[first] {
+                for tail in seqs(by_size, n - first, max_len - 1) {
+                    let mut v = Vec::with_capacity(tail.len() + 1);
+                    v.push(head.clone());
+                    v.extend(tail);
+                    out.push(v);
+                }
+            }
+        }
+        out
+    }
+    for n in 2 ..= k {
+        let mut cur = Vec::new();
+        // tag over a tree with n-1 nodes (two tag numbers: immediate and one-byte)
+        for x in &by_size[n - 1] { cur.push(Item::tag(1, x.clone())); }
+        if n == 2 { for x in &by_size[1] { cur.push(Item::tag(55799, x.clone())); } }
+        // arrays whose children have n-1 nodes in total
+        for s in seqs(&by_size, n - 1, n - 1) {
+            cur.push(Item::array(s.clone()));
+            cur.push(Item::Array(s, None));
+        }
+        // maps: pairs; children total n-1 nodes, even count of children
+        for s in seqs(&by_size, n - 1, n - 1) {
+            if s.len() % 2 != 0 { continue }
+            let pairs: Vec<(Item, Item)> = s.chunks(2).map(|c| (c[0].clone(), c[1].clone())).collect();
+            cur.push(Item::map(pairs.clone()));
+            cur.push(Item::Map(pairs, None));
+        }
+        by_size[n] = cur;
+    }
+    by_size.into_iter().flatten().collect()
+}
+
+/// Structural shapes only (few leaf kinds): for skip-style checks where leaves are interchangeable.
+pub fn small_structures(k: usize) -> Vec<Item> {
+    fn reduce(i: &Item) -> bool {
+        // keep only trees whose leaves are from a tiny set
+        match i {
+            Item::UInt(v, _) => *v == 0 || *v == 24,
+            Item::NInt(v, _) => *v == 255,
+            Item::Bytes(b, _) => b.len() == 1,
+            Item::Text(s, _) => s == "a",
+            Item::BytesIndef(c) => c.len() == 2,
+            Item::TextIndef(c) => c.len() == 2 || c.is_empty(),
+            Item::Null | Item::F16(0x3c00) | Item::Simple(255) => true,
+            Item::Array(xs, _) => xs.iter().all(reduce),
+            Item::Map(xs, _) => xs.iter().all(|(k, v)| reduce(k) && reduce(v)),
+            Item::Tag(t, _, x) => *t == 1 && reduce(x),
+            _ => false
+        }
+    }
+    // build with a reduced leaf set directly for larger k
+    let mut by_size: Vec<Vec<Item>> = vec![vec![]; k + 1];
+    if k == 0 { return vec![] }
+    let mut one: Vec<Item> = leaf_reps().into_iter().filter(reduce).collect();
+    one.push(Item::Array(vec![], Some(W::Imm)));
+    one.push(Item::Array(vec![], None));
+    one.push(Item::Map(vec![], Some(W::Imm)));
+    one.push(Item::Map(vec![], None));
+    by_size[1] = one;
+    fn seqs(by_size: &[Vec<Item>], n: usize) -> Vec<Vec<Item>> {
+        if n == 0 { return vec![vec![]] }
+        let mut out = Vec::new();
+        for first in 1 ..= n {
+            for head in &by_size[first] {
+                for tail in seqs(by_size, n - first) {
+                    let mut v = Vec::with_capacity(tail.len() + 1);
+                    v.push(head.clone());
+                    v.extend(tail);
+                    out.push(v);
+                }
+            }
+        }
+        out
+    }
+    for n in 2 ..= k {
+        let mut cur = Vec::new();
+        for x in &by_size[n - 1] { cur.push(Item::tag(1, x.clone())); }
+        for s in seqs(&by_size, n - 1) {
+            cur.push(Item::array(s.clone()));
+            cur.push(Item::Array(s.clone(), None));
+            if s.len() % 2 == 0 {
+                let pairs: Vec<(Item, Item)> = s.chunks(2).map(|c| (c[0].clone(), c[1].clone())).collect();
+                cur.push(Item::map(pairs.clone()));
+                cur.push(Item::Map(pairs, None));
+            }
+        }
+        by_size[n] = cur;
+    }
+    by_size.into_iter().flatten().collect()
+}
+
+fn head_arg(i: &Item) -> Option<u64> {
+    match i {
+        Item::UInt(v, _) | Item::NInt(v, _) => Some(*v),
+        Item::Bytes(b, _) => Some(b.len() as u64),
+        Item::Text(s, _) => Some(s.len() as u64),
+        Item::Array(xs, Some(_)) => Some(xs.len() as u64),
+        Item::Map(xs, Some(_)) => Some(xs.len() as u64),
+        Item::Tag(t, _, _) => Some(*t),
+        _ => None
+    }
+}
+
+/// Number of head-width assignments of a tree (product over all heads of the admissible widths).
+pub fn framing_count(i: &Item) -> u64 {
+    let own = head_arg(i).map(|v| W::at_least(v).len() as u64).unwrap_or(1);
+    let kids: u64 = match i {
+        Item::BytesIndef(cs) => cs.iter().map(|(c, _)| W::at_least(c.len() as u64).len() as u64).product(),
+        Item::TextIndef(cs) => cs.iter().map(|(c, _)| W::at_least(c.len() as u64).len() as u64).product(),
+        Item::Array(xs, _) => xs.iter().map(framing_count).fold(1u64, |a, b| a.saturating_mul(b)),
+        Item::Map(xs, _) => xs.iter().map(|(k, v)| framing_count(k).saturating_mul(framing_count(v))).fold(1u64, |a, b| a.saturating_mul(b)),
+        Item::Tag(_, _, x) => framing_count(x),
+        _ => 1
+    };
+    own.saturating_mul(kids)
+}
+
+/// The `idx`-th head-width assignment (mixed radix, pre-order).
+pub fn apply_framing(i: &Item, idx: &mut u64) -> Item {
+    let mut pick = |v: u64, idx: &mut u64| -> W { let ws = W::at_least(v); let w = ws[(*idx % ws.len() as u64) as usize]; *idx /= ws.len() as u64; w };
+    match i {
+        Item::UInt(v, _) => Item::UInt(*v, pick(*v, idx)),
+        Item::NInt(v, _) => Item::NInt(*v, pick(*v, idx)),
+        Item::Bytes(b, _) => Item::Bytes(b.clone(), pick(b.len() as u64, idx)),
+        Item::Text(s, _) => Item::Text(s.clone(), pick(s.len() as u64, idx)),
+        Item::BytesIndef(cs) => Item::BytesIndef(cs.iter().map(|(c, _)| (c.clone(), pick(c.len() as u64, idx))).collect()),
+        Item::TextIndef(cs) => Item::TextIndef(cs.iter().map(|(c, _)| (c.clone(), pick(c.len() as u64, idx))).collect()),
+        Item::Array(xs, f) => { let w = f.map(|_| pick(xs.len() as u64, idx)); Item::Array(xs.iter().map(|x| apply_framing(x, idx)).collect(), w) }
+        Item::Map(xs, f) => { let w = f.map(|_| pick(xs.len() as u64, idx)); Item::Map(xs.iter().map(|(k, v)| { let kk = apply_framing(k, idx); let vv = apply_framing(v, idx); (kk, vv) }).collect(), w) }
+        Item::Tag(t, _, x) => { let w = pick(*t, idx); Item::Tag(*t, w, Box::new(apply_framing(x, idx))) }
+        o => o.clone()
+    }
+}
+
+/// A lazily indexable space: all (shape, framing) pairs of `shapes`.
+pub struct FramedSpace { pub shapes: Vec<Item>, prefix: Vec<u64> }
+
+impl FramedSpace {
+    pub fn new(shapes: Vec<Item>) -> Self {
+        let mut prefix = Vec::with_capacity(shapes.len() + 1);
+        let mut acc = 0u64;
+        prefix.push(0);
+        for s in &shapes { acc += framing_count(s); prefix.push(acc) }
+        FramedSpace { shapes, prefix }
+    }
+    pub fn len(&self) -> u64 { *self.prefix.last().unwrap() }
+    pub fn is_empty(&self) -> bool { self.len() == 0 }
+    pub fn get(&self, i: u64) -> Item {
+        let s = match self.prefix.binary_search(&i) { Ok(p) => p, Err(p) => p - 1 };
+        let s = s.min(self.shapes.len() - 1);
+        let mut idx = i - self.prefix[s];
+        apply_framing(&self.shapes[s], &mut idx)
+    }
+}
